@@ -232,10 +232,20 @@ func (b *bloomcache) hasCached(k cid.Cid) (has bool, ok bool) {
 		// in case of invalid key is forwarded deeper
 		return false, false
 	}
+	// Load the filter before reading active, and trust a negative answer only
+	// if that filter is still the live one afterwards. Rebuild deactivates,
+	// swaps in an empty filter, repopulates it and reactivates: reading active
+	// first and the pointer second can pair a stale "active" with the fresh,
+	// still incomplete filter and report a stored block as missing. In this
+	// order, active == true means the live filter has been fully populated
+	// (activation always follows a complete enumeration into the live filter),
+	// and the pointer comparison rejects a filter that was swapped out in the
+	// meantime (a swapped-out filter never becomes live again).
+	bl := b.bloom.Load()
 	if b.BloomActive() {
 		verifPoint("bloom.has")
-		blr := b.bloom.Load().HasTS(k.Hash())
-		if !blr { // not contained in bloom is only conclusive answer bloom gives
+		blr := bl.HasTS(k.Hash())
+		if !blr && b.bloom.Load() == bl { // not contained in bloom is only conclusive answer bloom gives
 			b.hits.Inc()
 			return false, true
 		}
